@@ -289,8 +289,10 @@ func checkViewOps(v rsView, want []byte, ops []viewOp) (rule, feature, detail st
 					return
 				}
 				avail := min(int64(op.N), size-op.Off)
-				if int64(k) < avail && err == nil {
-					rule, feature, detail = "readat", "short-without-error", fmt.Sprintf("ReadAt(%d,%d) (size %d) returned %d < %d bytes with a nil error", op.N, op.Off, size, k, avail)
+				if k == 0 && avail > 0 && err == nil {
+					// positional reads need not fill the buffer (the statements only ask for progress), but
+					// returning nothing without an error before the end is no progress
+					rule, feature, detail = "readat", "no-progress", fmt.Sprintf("ReadAt(%d,%d) (size %d) returned 0 bytes with a nil error", op.N, op.Off, size)
 					return
 				}
 				if int64(k) == int64(op.N) && err != nil && err != io.EOF {
